@@ -169,8 +169,9 @@ def edges_to_behaviours(outp, tag="EDGE", limit=None):
     sid = {}
 
     def key(s):
-        h = hashlib.md5(s.encode()).digest()[:10]
-        return h
+        # s is the JSON image of the model's VIEW; sort_keys makes it canonical
+        # (TLC prints record fields in construction order, so raw text is not)
+        return hashlib.md5(json.dumps(s, sort_keys=True).encode()).digest()[:10]
 
     edges = []
     for js in tlc_lines(outp, tag):
@@ -226,7 +227,7 @@ def flat(e):
     return out
 
 
-SETUP_OPS = ("set", "obj", "emcy", "para", "#")
+SETUP_OPS = ("set", "obj", "emcy", "para", "#", "inject")
 
 
 def npre_events(beh, preamble):
@@ -237,7 +238,9 @@ def script_of(beh, preamble):
     """text fed to the harness for one behaviour"""
     lines = list(preamble(beh.cfg))
     for st in beh.steps:
-        lines.append(" ".join(str(v) for v in flat(st["e"])))
+        # "|" separates a silent setup line (e.g. inject) from the event proper
+        for part in " ".join(str(v) for v in flat(st["e"])).split("|"):
+            lines.append(part.strip())
     return lines
 
 
@@ -276,8 +279,8 @@ def replay(exe, behs, preamble, name, nproc=None, keep=False):
                 f.write("\n")
         files.append(fn)
     env = dict(os.environ)
-    env["ASAN_OPTIONS"] = "detect_leaks=0:abort_on_error=0:exitcode=77:allocator_may_return_null=1"
-    env["UBSAN_OPTIONS"] = "halt_on_error=1:print_stacktrace=1:exitcode=76"
+    env["ASAN_OPTIONS"] = "detect_leaks=0:abort_on_error=0:exitcode=77:allocator_may_return_null=1:symbolize=0"
+    env["UBSAN_OPTIONS"] = "halt_on_error=1:print_stacktrace=0:symbolize=0:exitcode=76"
 
     def run(fn):
         with open(fn) as fi, open(fn.replace("in", "out"), "w") as fo, open(fn.replace("in", "err"), "w") as fe:
